@@ -640,8 +640,6 @@ Qed.
 
 (* ---- sizes --------------------------------------------------------------------------------- *)
 
-Fixpoint sum_sizes (l : list Z) : Z := match l with [] => 0 | x :: r => 4 + x + sum_sizes r end.
-Definition txs_msg_len (sizes : list Z) : Z := 1 + 1 + sum_sizes sizes.
 
 Lemma len_concat_frames : forall txs, len (concat (map frame_tx txs)) = sum_sizes (map len txs).
 Proof.
@@ -754,4 +752,168 @@ Proof.
   cbn [bind]. change relay_header with 65 in *. change max_size with 33554432 in *.
   change batch_threshold with 22369621 in *. change txs_max with 255 in *. pose proof (len_nonneg batch).
   split; eexists; (split; [reflexivity|]); rewrite !len_cons, !len_app, len_be_bytes; consts; lia.
+Qed.
+
+Theorem relay_len_spec : forall me peer m, len me = hash_size -> len peer = hash_size ->
+  rmap len (build_relay me peer m) = relay_len (len m).
+Proof.
+  intros me peer m H1 H2. unfold build_relay, relay_len. destruct (max_size <? len m); [reflexivity|].
+  cbn [rmap]. f_equal. rewrite len_cons, !len_app. unfold relay_header. lia.
+Qed.
+
+Theorem send_accepts_spec : forall m, send_accepts (len m) = is_ok (encode_frame m).
+Proof. intros. unfold send_accepts, encode_frame. destruct ((len m <? 1) || (max_size <? len m)); reflexivity. Qed.
+
+(* ---- round trips of the list-carrying messages ------------------------------------------ *)
+
+Lemma len_concat_const : forall (ws : list bytes) n, Forall (fun w => len w = n) ws ->
+  len (concat ws) = n * len ws.
+Proof.
+  induction 1 as [|w ws Hw _ IH]; cbn [concat]; [unfold len; cbn; lia|].
+  rewrite len_app, len_cons, IH, Hw. lia.
+Qed.
+
+Lemma wants_loop_build : forall ws pre i, 0 <= i -> len pre = 32 * i ->
+  Forall (fun w => len w = 32) ws ->
+  wants_loop (pre ++ concat ws) (length ws) i = Ok ws.
+Proof.
+  induction ws as [|w ws IH]; intros pre i Hi Hpre Hall; cbn [length wants_loop concat]; [reflexivity|].
+  inversion Hall as [|? ? Hw Hrest]; subst. unfold slice_from.
+  sf pre (w ++ concat ws).
+  replace (pre ++ w ++ concat ws) with ((pre ++ w) ++ concat ws) by now rewrite app_assoc.
+  rewrite (IH (pre ++ w) (i + 1)) by (try assumption; try lia; rewrite len_app; lia).
+  cbn [bind]. rewrite (copy_arr_len hash_n w) by len_solve. reflexivity.
+Qed.
+
+Section Roundtrip2.
+Variables SN TX : Type.
+Variable snap_body : bytes -> option SN.
+Variable snap_signed : SN -> bool.
+Variable tx_body : bytes -> option TX.
+Variable check_key : bytes -> bool.
+Notation parse_body := (parse_body SN TX snap_body snap_signed tx_body check_key).
+Notation parse_msg := (parse_msg SN TX snap_body snap_signed tx_body check_key).
+
+Lemma precommit_loop_build : forall keys pre i, 0 <= i -> len pre = 67 + 32 * i ->
+  i + len keys <= 1024 ->
+  Forall (fun k => len k = 32 /\ check_key k = true) keys ->
+  precommit_loop check_key (pre ++ concat keys) (length keys) i = Ok keys.
+Proof.
+  induction keys as [|k keys IH]; intros pre i Hi Hpre Hn Hall; cbn [length precommit_loop concat]; [reflexivity|].
+  inversion Hall as [|? ? [Hk Hc] Hrest]; subst. rewrite len_cons in Hn. pose proof (len_nonneg keys).
+  rewrite wrap16_small by lia. unfold slice_from.
+  sf pre (k ++ concat keys). rewrite (copy_arr_len key_n k) by len_solve. rewrite Hc.
+  replace (pre ++ k ++ concat keys) with ((pre ++ k) ++ concat keys) by now rewrite app_assoc.
+  rewrite (IH (pre ++ k) (i + 1)) by (try assumption; try lia; rewrite len_app; lia).
+  reflexivity.
+Qed.
+
+Theorem roundtrip_commitments : forall v sig keys m,
+  len sig = sig_size -> 1 <= len keys ->
+  Forall (fun k => len k = 32 /\ check_key k = true) keys ->
+  build_commitments sig keys = Ok m ->
+  parse_msg v m = Ok (v, MPreCommitments sig keys (be_bytes 2 (len keys) ++ concat keys)).
+Proof.
+  intros v sig keys m Hs Hn Hall Hb. unfold build_commitments in Hb. consts.
+  match type of Hb with (if ?c then _ else _) = _ => destruct c eqn:E end; [discriminate|]. apply Ok_inj in Hb; subst m.
+  assert (Hc : len (concat keys) = 32 * len keys).
+  { apply len_concat_const. eapply Forall_impl; [|exact Hall]. now intros a [H _]. }
+  rewrite (parse_msg_cons SN TX snap_body snap_signed tx_body check_key). dispatch. consts.
+  set (T := ty Consts.P2P_TypePreCommitments). set (C := be_bytes 2 (len keys)).
+  assert (HC : len C = 2) by (subst C; now rewrite len_be_bytes).
+  gd false. sl [T] sig (C ++ concat keys). sl (T :: sig) C (concat keys).
+  subst C. unfold bytes in *. rewrite be_roundtrip by (change (256 ^ Z.of_nat 2) with 65536; lia). set (C := be_bytes 2 (len keys)) in *.
+  gd false. sf (T :: sig ++ C) (concat keys). gd false.
+  replace (T :: sig ++ C ++ concat keys) with ((T :: sig ++ C) ++ concat keys) by list_eq.
+  replace (Z.to_nat (len keys)) with (length keys) by (unfold len; lia).
+  rewrite precommit_loop_build; [|lia|len_solve|lia|assumption]. cbn [bind].
+  sf (T :: sig) (C ++ concat keys). rewrite copy_arr_len' by len_solve. reflexivity.
+Qed.
+
+Theorem roundtrip_commitment : forall v sig h R wants,
+  len sig = sig_size -> len h = hash_size -> len R = key_size -> check_key R = true ->
+  Forall (fun w => len w = 32) wants ->
+  parse_msg v (build_commitment sig h R wants) =
+  Ok (v, MCommitment sig h R wants (h ++ R ++ concat wants)).
+Proof.
+  intros v sig h R wants Hs Hh HR Hc Hall. unfold build_commitment.
+  assert (Hl : len (concat wants) = 32 * len wants) by now apply len_concat_const.
+  pose proof (len_nonneg wants).
+  rewrite (parse_msg_cons SN TX snap_body snap_signed tx_body check_key). dispatch. consts.
+  set (T := ty Consts.P2P_TypeCommitment). set (W := concat wants) in *.
+  sf [T] (sig ++ h ++ R ++ W). gd false.
+  sl [T] sig (h ++ R ++ W). sf (T :: sig) (h ++ R ++ W). sf (T :: sig ++ h) (R ++ W).
+  rewrite (copy_arr_len 32%nat R W) by len_solve. rewrite Hc. cbn [negb]. cbv beta iota.
+  sf (T :: sig ++ h ++ R) W.
+  rewrite (copy_arr_len 32%nat h) by len_solve. rewrite (copy_arr_len' 64%nat sig) by len_solve.
+  destruct wants as [|w ws].
+  - subst W. cbn [concat]. replace (0 <? len (@nil N)) with false by reflexivity. reflexivity.
+  - pose proof (len_nonneg ws). assert (Hl' := Hl). rewrite len_cons in Hl'.
+    replace (0 <? len W) with true by lia.
+    replace (negb (len W mod 32 =? 0)) with false by (rewrite Hl, Z.mul_comm, Z.mod_mul by lia; reflexivity).
+    replace (Z.to_nat (len W / 32)) with (length (w :: ws))
+      by (rewrite Hl, Z.mul_comm, Z.div_mul by lia; unfold len; lia).
+    subst W. rewrite <- (app_nil_l (concat (w :: ws))).
+    rewrite (wants_loop_build (w :: ws) [] 0) by (try assumption; try lia; reflexivity).
+    reflexivity.
+Qed.
+
+End Roundtrip2.
+
+(* ---- sync points ---------------------------------------------------------------------------- *)
+
+Definition point_wf (p : sync_point) : Prop :=
+  len (sp_node p) = 32 /\ len (sp_hash p) = 32 /\ 0 <= sp_number p < 2 ^ 64.
+
+Lemma dec_read_app : forall n a b, len a = n -> dec_read n (a ++ b) = Ok (a, b).
+Proof.
+  intros n a b <-. unfold dec_read. rewrite len_app. pose proof (len_nonneg b).
+  replace (len a + len b <? len a) with false by lia.
+  now rewrite (firstn_len_app a b), (skipn_len_app a b).
+Qed.
+
+Lemma read_points_build : forall ps rest, Forall point_wf ps ->
+  read_points (length ps) (concat (map marshal_point ps) ++ rest) = Ok ps.
+Proof.
+  induction ps as [|p ps IH]; intros rest Hall; cbn [length read_points map concat]; [reflexivity|].
+  inversion Hall as [|? ? (Hn & Hh & Hnum) Hrest]; subst. unfold marshal_point at 1. consts.
+  rewrite <- !app_assoc. rewrite dec_read_app by assumption. cbn [bind].
+  rewrite dec_read_app by now rewrite len_be_bytes. cbn [bind].
+  rewrite dec_read_app by assumption. cbn [bind]. rewrite IH by assumption. cbn [bind].
+  rewrite be_roundtrip by (change (256 ^ Z.of_nat 8) with (2 ^ 64); lia).
+  destruct p; reflexivity.
+Qed.
+
+Theorem sync_points_roundtrip : forall ps d, Forall point_wf ps ->
+  marshal_sync_points ps = Ok d -> unmarshal_sync_points d = Ok ps.
+Proof.
+  intros ps d Hall Hm. unfold marshal_sync_points in Hm. consts.
+  match type of Hm with (if ?c then _ else _) = _ => destruct c eqn:E end; [discriminate|].
+  apply Ok_inj in Hm; subst d. unfold unmarshal_sync_points, slice_from. consts.
+  set (H := Consts.P2P_MinimumEncodingHeader). set (B := concat (map marshal_point ps)).
+  assert (HH : len H = 4) by reflexivity. pose proof (len_nonneg ps). pose proof (len_nonneg B).
+  gd false. sl (@nil N) H (be_bytes 2 (len ps) ++ B).
+  replace (bytes_eqb H H) with true by reflexivity. cbn [negb]. cbv beta iota.
+  sf H (be_bytes 2 (len ps) ++ B).
+  rewrite dec_read_app by now rewrite len_be_bytes. cbn [bind].
+  unfold bytes in *. rewrite be_roundtrip by (change (256 ^ Z.of_nat 2) with 65536; lia).
+  gd false. replace (Z.to_nat (len ps)) with (length ps) by (unfold len; lia).
+  subst B. pose proof (read_points_build ps [] Hall) as Hr. rewrite app_nil_r in Hr. exact Hr.
+Qed.
+
+Theorem roundtrip_graph : forall SN TX snap_body snap_signed tx_body check_key v sig ps m d,
+  len sig = sig_size -> Forall point_wf ps ->
+  marshal_sync_points ps = Ok d -> build_graph sig ps = Ok m ->
+  parse_msg SN TX snap_body snap_signed tx_body check_key v m = Ok (v, MGraph sig ps d).
+Proof.
+  intros SN TX snap_body snap_signed tx_body check_key v sig ps m d Hs Hall Hd Hb.
+  unfold build_graph in Hb. rewrite Hd in Hb. cbn [bind] in Hb. apply Ok_inj in Hb; subst m.
+  assert (Hl : 6 <= len d).
+  { unfold marshal_sync_points in Hd. destruct (max_encoding_int <? len ps); [discriminate|].
+    apply Ok_inj in Hd; subst d. rewrite !len_app, len_be_bytes.
+    pose proof (len_nonneg (concat (map marshal_point ps))). change (len Consts.P2P_MinimumEncodingHeader) with 4. lia. }
+  rewrite parse_msg_cons. dispatch. consts. set (T := ty Consts.P2P_TypeGraph).
+  gd false. sf [T] (sig ++ d). sf (T :: sig) d.
+  rewrite (sync_points_roundtrip ps d Hall Hd). cbn [bind].
+  rewrite (copy_arr_len 64%nat sig d) by len_solve. reflexivity.
 Qed.
